@@ -163,12 +163,14 @@ structure Flags where
   noColumnsAsserts : Bool := true
   flexNegative : Bool := true
   staleTableWidth : Bool := true
+  flexClampZero : Bool := true
 deriving Repr, DecidableEq
 
 def Flags.today : Flags := {}
 def Flags.repaired : Flags := { leadingRepeat := false, minWidthCapsExpand := false, fixedRawMaximum := false }
 def Flags.allRepaired : Flags :=
-  { leadingRepeat := false, minWidthCapsExpand := false, fixedRawMaximum := false, noColumnsAsserts := false, flexNegative := false, staleTableWidth := false }
+  { leadingRepeat := false, minWidthCapsExpand := false, fixedRawMaximum := false, noColumnsAsserts := false, flexNegative := false, staleTableWidth := false,
+    flexClampZero := false }
 
 structure Table where
   columns : List Column
@@ -272,7 +274,9 @@ def Table.firstWidths (fl : Flags) (t : Table) (maxWidth : Int) : Option (List I
       match ratioDistribute flexibleWidth ratios (some flexMinimum) with
       | none => none
       | some flexWidths =>
-        let flexWidths := if fl.flexNegative then flexWidths else flexWidths.map (fun w => max 0 w)
+        let flexWidths := if fl.flexNegative then flexWidths
+          else if fl.flexClampZero then flexWidths.map (fun w => max 0 w)
+          else (flexMinimum.zip flexWidths).map (fun mw => max mw.1 mw.2)
         mergeFlex (t.columns.zip (widths.zip fixed)) flexWidths
     else some widths
   else some widths
